@@ -166,8 +166,13 @@ func (c *checkCtx) finish() int {
 // output of Print Assumptions.
 func (c *checkCtx) coqObligations() {
 	coqDir := filepath.Join(verifDir, "coq")
-	mk := run(coqDir, 60*time.Minute, nil, "make", "-j16")
 	file := filepath.Join("theories", "Properties", c.id+".v")
+	// build exactly what this property's theorems depend on (full .vo build of that cone)
+	target := filepath.Join("theories", "Properties", c.id+".vo")
+	if _, err := os.Stat(filepath.Join(coqDir, file)); err != nil {
+		target = "all"
+	}
+	mk := run(coqDir, 60*time.Minute, nil, "make", "-j16", target)
 	src, err := os.ReadFile(filepath.Join(coqDir, file))
 	if err != nil {
 		c.cov.CheckerCmd = "make -C /verif/coq (no Properties file for " + c.id + ")"
@@ -183,7 +188,7 @@ func (c *checkCtx) coqObligations() {
 		}
 	}
 	c.cov.Obligations = len(names)
-	c.cov.CheckerCmd = "make -C /verif/coq -j16 && coqc -Q theories Lox " + file
+	c.cov.CheckerCmd = "make -C /verif/coq -j16 " + target + " && coqc -Q theories Lox " + file
 	if mk.Code != 0 {
 		c.addFinding(finding{
 			Signature: "coq-build-failed",
